@@ -417,6 +417,9 @@ func (g *genCtx) genMacro(r *RNG, depth int) []Macro {
 		if r.P(1, 3) {
 			// probe the account just touched (existing-but-empty accounts, warm/cold state)
 			probe := g.pickOp(r, []opAvail{{"EXTCODEHASH", "Constantinople"}, {"EXTCODESIZE", ""}, {"BALANCE", ""}, {"EXTCODEHASH", "Constantinople"}})
+			if g.noIntro {
+				probe = "BALANCE" // code hashes differ by design in the transliterated profile
+			}
 			ms = append(ms, Macro{K: "op", Op: probe, A: []string{c.A[1]}, Dst: 1 + r.Intn(0x1c0)})
 			if r.P(1, 3) {
 				c2 := c
